@@ -211,7 +211,7 @@ fn conforming(r: &mut Rng, variant: u8) -> Vec<(String, JV)> {
     let nunk = *r.pick(&[0u64, 0, 1, 1, 2, 4]);
     for _ in 0..nunk {
         let k = if r.chance(1, 3) {
-            r.pick(&["scopes", "Access_Token", "access_token ", "expires", "token_type\0", "TOKEN_TYPE", "error", "error_description", "x", "", "é"]).to_string()
+            (if r.chance(1, 2) { *r.pick(crate::ops::common::ALIAS_LIKE_MEMBER_NAMES) } else { *r.pick(&["scopes", "Access_Token", "access_token ", "expires", "token_type\0", "TOKEN_TYPE", "error", "error_description", "x", "", "é"]) }).to_string()
         } else {
             gen::mixed(r)
         };
@@ -286,7 +286,7 @@ fn member_class(k: &str) -> &str {
     }
 }
 
-fn malformed(r: &mut Rng) -> TokCase {
+pub(crate) fn malformed(r: &mut Rng) -> TokCase {
     let mut c = base_case(r);
     let mut ms = match &c.doc {
         JV::Obj(ms) => ms.clone(),
